@@ -188,7 +188,24 @@ Judge(i, si) ==
       tieCut == b = "volumes" /\ \E k \in 1..(Len(want) - 1) : ref[k * size].a = ref[k * size + 1].a
       samePage(p, w) == IF b = "volumes" THEN Len(p) = Len(w) /\ ToSet(p) = ToSet(w)
                         ELSE [j \in DOMAIN p |-> KeyOf(b, p[j])] = [j \in DOMAIN w |-> KeyOf(b, w[j])]
+      \* the walk made with another page size from the `next` cursor of the first page (unique-key listings)
+      rz == out.rz
+      colKind == b \in {"transactions", "logs"}
+      keysOf(xs) == [jj \in DOMAIN xs |-> KeyOf(b, xs[jj])]
+      firstPage == IF colKind THEN ColPage(ToSet(keysOf(ref)), q.order, size, ColFirst) ELSE OffPage(ref, size, OffFirst)
+      fwdExp == IF colKind THEN ColWalk(ToSet(keysOf(ref)), q.order, rz.size2, firstPage.next, "next", 60)
+                ELSE OffWalk(ref, rz.size2, firstPage.next, "next", 60)
+      lastFwd == fwdExp[Len(fwdExp)]
+      backExp == IF ~IsCursor(lastFwd.prev) THEN <<>>
+                 ELSE IF colKind THEN ColWalk(ToSet(keysOf(ref)), q.order, rz.size2, lastFwd.prev, "prev", 60)
+                 ELSE OffWalk(ref, rz.size2, lastFwd.prev, "prev", 60)
+      expKeys(ps) == [k \in DOMAIN ps |-> IF colKind THEN ps[k].items ELSE keysOf(ps[k].items)]
+      obsKeys(ps) == [k \in DOMAIN ps |-> keysOf(NormSeq(b, ps[k]))]
   IN [selClass |-> selClass, metaClass |-> metaClass, tpl |-> tpl, base |-> b, single |-> single,
+      resizeFwd |-> judged /\ rz.checked /\ out.perr = "" =>
+         IsCursor(firstPage.next) /\ obsKeys(rz.fwd) = expKeys(fwdExp),
+      resizeBack |-> judged /\ rz.checked /\ out.perr = "" =>
+         IsCursor(firstPage.next) /\ obsKeys(rz.back) = expKeys(backExp) /\ rz.backEnd,
       filtered |-> q0.filter.op # "true" /\ ~single,
       multi |-> multi, notInternal |-> out.status # "internal",
       judged |-> judged, pit |-> q.pit, ins |-> q.ins, xvol |-> q.xvol, xevol |-> q.xevol,
@@ -271,9 +288,10 @@ ReadChecks(i, si) ==
         <<"Step_C20_Count", direct /\ none, j.count>>,
         <<"Step_C17_TxMetaAt", direct /\ none /\ mnone /\ j.base = "transactions", j.meta>>,
         <<"Step_C17_AcctMetaAt", direct /\ none /\ mnone /\ j.base = "accounts", j.meta>>,
-        <<"Step_C21_Pages", direct, j.pages>>,
+        \* (incl. the walks made with ANOTHER page size from the first page's next cursor: forward = Pages, backward = Previous)
+        <<"Step_C21_Pages", direct, j.pages /\ j.resizeFwd>>,
         <<"Step_C21_Sorted", direct, j.sorted>>,
-        <<"Step_C21_Previous", direct, j.prev>>,
+        <<"Step_C21_Previous", direct, j.prev /\ j.resizeBack>>,
         <<"Step_C37_Status", j.tpl /\ none, j.status>>,
         <<"Step_C37_Template", j.tpl /\ none /\ mnone, j.content /\ j.meta>>,
         <<"Step_C37_Cursor", j.tpl /\ none, j.pages /\ j.sorted /\ j.prev>>,
